@@ -120,6 +120,8 @@ class TreeSim(WorldBase):
         }
         if prop == "C03" and rng.random() < 0.25:
             cfg["leaf_default"] = rng.choice([5, -1, 0.5, 2.5])
+        if prop == "C05" and rng.random() < 0.2:
+            cfg["leaf_default"] = rng.choice([5, -1, 2.5])
         # swarm: op weights with dropout
         w = dict(BASE_WEIGHTS[prop])
         focus = FOCUS[prop]
@@ -877,6 +879,25 @@ class TreeSim(WorldBase):
 
     def op_filshift(self, a, targets):
         sl, f, level, leaf = self._mut(a, targets)
+        if "usrc" in a:
+            # the right-hand side presents its elements out of coordinate order: an unordered fiber, or a lazy
+            # projection through a function that permutes or collapses coordinates. The (ordered) target must
+            # stay well-formed whatever it is assigned from.
+            if not leaf or sl.free or any(not isinstance(c, int) for c in f.coords):
+                raise Skip("leaf fiber with int coordinates")
+            cs, vs = a["usrc"]["coords"], a["usrc"]["vals"]
+            try:
+                if a["usrc"]["kind"] == "unordered":
+                    src = Fiber(list(cs), list(vs), ordered=False)
+                else:
+                    base = Fiber(sorted(set(cs)), list(vs)[:len(set(cs))])
+                    fn = (lambda c: c // 2) if a["usrc"]["kind"] == "collapse" else (lambda c: (3 * c) % 7)
+                    src = base.project(trans_fn=fn)
+                f.__ilshift__(src)
+            except Exception as e:
+                return {"status": f"exc:{type(e).__name__}"}
+            self.probe("filshift_from_unordered_source:" + a["usrc"]["kind"])
+            return {}
         osl, of = self.fiber_at(a["src"], a["src_prefix"])
         if a["src"] == a["slot"]:
             raise Skip("same tensor")
@@ -2018,7 +2039,13 @@ class TreeSim(WorldBase):
             opre = self.existing_prefix(g, osl, ko)
             if pre is None or opre is None:
                 continue
-            return ["op", "filshift", {"slot": s, "prefix": enc_point(pre), "src": o, "src_prefix": enc_point(opre)}]
+            ev = {"slot": s, "prefix": enc_point(pre), "src": o, "src_prefix": enc_point(opre)}
+            if k == sl.depth - 1 and g.random() < 0.25:
+                n = g.randint(2, 5)
+                cs = g.sample(range(7), n)
+                ev["usrc"] = {"kind": g.choice(["unordered", "collapse", "permute"]), "coords": cs,
+                              "vals": [self.nextval() for _ in range(n)]}
+            return ["op", "filshift", ev]
         return None
 
     def gen_updc(self, g):
@@ -2259,7 +2286,7 @@ BASE_WEIGHTS = {
             "populate": 0.7, "descend": 2, "updp": 0.3, "fimul": 0.3, "filshift": 0.3, "new_op": 0.3},
     "C05": {"vr": 1.0, "populate": 8, "descend": 10, "ref": 3, "hw": 1, "get": 3, "setitem": 1, "clear": 0.3, "filshift": 0.5,
             "fimul": 0.5, "rotrav": 0.5, "new_op": 0.7, "regrow": 0.6},
-    "C10": dict(ALLMUT, get=2, getpos=1, rotrav=2, vr=10, ro=10, render=0.2, r0=0.5),
+    "C10": dict(ALLMUT, get=2, getpos=1, rotrav=2, vr=10, ro=10, render=0.35, r0=0.5),
 }
 FOCUS = {
     "C01": {"ref", "setitem", "append", "populate", "descend"},
